@@ -444,8 +444,9 @@ class Contract:
     """Sidecar contract of one function (see /verif/contracts/*.py)."""
 
     def __init__(self, module, name, params, requires=(), ensures=(), loops=None, abstract=None, ghost_after=None,
-                 ghost_before=None, notes='', ensures_raises=None, setup=None, assume_after=None, stop_at=None, key=None, nonlinear=None, fragment=None, inputs=None, dot_support=False, use_fragments=None):
+                 ghost_before=None, notes='', ensures_raises=None, setup=None, assume_after=None, stop_at=None, key=None, nonlinear=None, fragment=None, inputs=None, dot_support=False, use_fragments=None, inf_division=False):
         self.module, self.name, self.params = module, name, params
+        self.inf_division = inf_division      # a/b with non-constant b: IEEE value 0 when b is the constant INF (np.inf)
         self.requires, self.ensures = list(requires), list(ensures)
         self.loops = dict(loops or {})
         self.abstract = dict(abstract or {})
@@ -659,6 +660,10 @@ class Engine:
                     return r if isinstance(op, ast.In) else (not r)
                 r = z3.Or(*[a.eq(x) for x in b])
                 return r if isinstance(op, ast.In) else z3.Not(r)
+            conc = lambda x: isinstance(x, (bool, int, str)) or x is None
+            if isinstance(b, (tuple, list)) and not isinstance(b, Opaque) and conc(a) and all(conc(x) for x in b):
+                r = a in tuple(b)          # concrete Python values on both sides: Python's own membership (False == 0, True == 1)
+                return r if isinstance(op, ast.In) else (not r)
             raise OutOfSubset('membership test')
         if isinstance(op, (ast.Is, ast.IsNot)):
             if b is None or a is None:
@@ -751,7 +756,7 @@ class Engine:
         if isinstance(op, ast.Mult): return x * y
         if isinstance(op, ast.Div):
             yr = to_z3(y, REAL)
-            if _mentions(yr, [z3.Real('INF')]):
+            if _mentions(yr, [z3.Real('INF')]) or (getattr(self.c, 'inf_division', False) and not z3.is_rational_value(z3.simplify(yr))):
                 # np.inf is the real constant INF; IEEE division of a finite value by infinity is exactly 0 (not 1/INF > 0)
                 return z3.If(yr == z3.Real('INF'), z3.RealVal(0), to_z3(x, REAL) / yr)
             return to_z3(x, REAL) / yr
